@@ -10,7 +10,28 @@ LEVEL = "model_checking"
 
 
 def path_of(p):
-    return "/".join(list(p["dirs"]) + [p["base"]])
+    # TLC strings are ASCII: "uname" stands for a name with a non-ASCII letter
+    return "/".join(list(p["dirs"]) + [p["base"]]).replace("uname", "sp\u00e4t")
+
+
+def git_quote(path):
+    """The way git writes a path in a diff header (default core.quotePath): C-style quoted when it holds non-ASCII
+    bytes, control characters, a double quote or a backslash."""
+    raw = path.encode()
+    if any(b >= 0x80 or b < 0x20 or b in (0x22, 0x5c) for b in raw):
+        esc = {0x22: '\\"', 0x5c: "\\\\", 0x09: "\\t", 0x0a: "\\n"}
+        return True, "".join(esc.get(b, chr(b) if 0x20 <= b < 0x80 else "\\%03o" % b) for b in raw)
+    return False, path
+
+
+def header(side, path):
+    """'--- a/<path>' / '+++ b/<path>' the way git prints it: quoted if need be, a tab after a name with a space."""
+    q, sp = git_quote(path)
+    pre = {"-": "--- ", "+": "+++ "}[side]
+    ab = {"-": "a/", "+": "b/"}[side]
+    if q:
+        return pre + '"' + ab + sp + '"' + ("\t" if " " in path else "")
+    return pre + ab + path + ("\t" if " " in path else "")
 
 
 def glob_of(g):
@@ -25,7 +46,7 @@ def glob_of(g):
     return path_of(g["arg"])
 
 
-TREE = ["f.py", "g.rs", "a/f.py", "b/f.py", "b/b/g.py", "a/b/f.rs", "src/m.py", "src/x y/n.rs", "gen/f.py", ".hid/h.py", "hid/h.py", "src/ig.py", "pkg.py/inner.rs"]
+TREE = ["f.py", "g.rs", "a/f.py", "b/f.py", "b/b/g.py", "a/b/f.rs", "src/m.py", "src/x y/n.rs", "gen/f.py", ".hid/h.py", "hid/h.py", "src/ig.py", "pkg.py/inner.rs", "src/sp\u00e4t f.py"]
 CWDS = ["", "a", "src/x y", "b/b", "gen"]
 
 
@@ -55,7 +76,7 @@ def run(chk):
     scns = res.cases
     chk.rng.shuffle(scns)
     # always include the scenarios around directories named b
-    scns.sort(key=lambda c: 0 if any(p["dirs"][:1] in (["b"], [".hid"]) for p in c["diff"]) else 1)
+    scns.sort(key=lambda c: 0 if any(p["dirs"][:1] in (["b"], [".hid"]) or "uname" in p["base"] for p in c["diff"]) else 1)
     plan = scns[:200] + scns[200:][:(500 if quick else 6000)]
     chk.exhaustive = False
     cases, meta = [], {}
@@ -79,9 +100,10 @@ def run(chk):
                     # the file was renamed (or copied) and edited: git names the old path on the --- side
                     oldp = "old_place/" + pp.replace("/", "_")
                     diff += ("diff --git a/%s b/%s\nsimilarity index 80%%\nrename from %s\nrename to %s\nindex 1..2 100644\n"
-                             "--- a/%s\n+++ b/%s\n@@ -1 +1 @@\n-old\n+%s\n" % (oldp, pp, oldp, pp, oldp, pp, first))
+                             "%s\n%s\n@@ -1 +1 @@\n-old\n+%s\n" % (oldp, pp, oldp, pp, header("-", oldp), header("+", pp), first))
                 else:
-                    diff += "diff --git a/%s b/%s\nindex 1..2 100644\n--- a/%s\n+++ b/%s\n@@ -1 +1 @@\n-old\n+%s\n" % (pp, pp, pp, pp, first)
+                    diff += "diff --git a/%s b/%s\nindex 1..2 100644\n%s\n%s\n@@ -1 +1 @@\n-old\n+%s\n" % (
+                        pp, pp, header("-", pp), header("+", pp), first)
         cid = "s%d" % i
         cases.append({"id": cid, "files": files, "diff": diff, "args": args, "terminal": s["terminal"], "cwd": CWDS[i % len(CWDS)] or None})
         meta[cid] = (s, exp)
